@@ -259,7 +259,7 @@ func c08ViaPatch(l, rr map[string]any) Case {
 func init() {
 	register(&Prop{
 		ID:   "C08",
-		Rule: "kinds: applydiff (L generated with every list item containing a scalar; R derived from L by deleting keyed subtrees, adding new keyed subtrees under fresh keys and replacing lists by other lists, incl. lists of more than ten items so that a[10] sorts before a[2]; Flatten(Apply(R,Diff(L,R))) == Flatten(L) on the Go side, whole resulting document vs the Coq model), apply-one (single Add/Change at a flatten-style path then Lookup), apply-nil, delete-absent, via-patch (xform.DiffMod2PatchOp + patch.Do). Non-trivial: diff has >= 2 modification kinds. Distinct by Gallina term. Documents also hold empty mappings reachable through mappings and lists of records; R may differ from L in a single leaf inside a record of an equally long list. Records in lists nested three deep; single Adds at paths with index chains of three and four.",
+		Rule: "kinds: applydiff (L generated with every list item containing a scalar; R derived from L by deleting keyed subtrees, adding new keyed subtrees under fresh keys and replacing lists by other lists, incl. lists of more than ten items so that a[10] sorts before a[2]; Flatten(Apply(R,Diff(L,R))) == Flatten(L) on the Go side, whole resulting document vs the Coq model), apply-one (single Add/Change at a flatten-style path then Lookup), apply-nil, delete-absent, via-patch (xform.DiffMod2PatchOp + patch.Do). Non-trivial: diff has >= 2 modification kinds. Distinct by Gallina term. Documents also hold empty mappings reachable through mappings and lists of records; R may differ from L in a single leaf inside a record of an equally long list. Records in lists nested three deep; single Adds at paths with index chains of three and four. Flatten() and Search() of R are called before Apply.",
 		Corpus: func() []Case {
 			return []Case{
 				c08ApplyDiff(map[string]any{"a": []any{map[string]any{"x": 1, "y": 2}}}, map[string]any{"a": []any{map[string]any{"z": 1}}}), // pinned-tree defect
